@@ -1,3 +1,5 @@
+import MjProof.Props.C49
+import MjProof.Lemmas.Introspect
 import MjProof.Props.C49GenEnums
 import MjProof.Props.C49GenParse
 import MjProof.Props.C49GenStructs
